@@ -1,6 +1,7 @@
 package main
 
 import (
+	"fmt"
 	"strings"
 
 	"golang.org/x/tools/go/ssa"
@@ -49,4 +50,24 @@ func (fx *fnExec) ghostAdd(st *State, cur, dt *Term) *Term {
 	n := BVAdd(cur, dt)
 	fx.ex.assume(st, Implies(BVSle(BVI(0, 64), dt), BVSle(cur, n)))
 	return n
+}
+
+// allocOrderKey identifies an Alloc uniquely and independently of map iteration order: comment,
+// position, enclosing function, block and index in the block.
+func allocOrderKey(a *ssa.Alloc) string {
+	idx := -1
+	if b := a.Block(); b != nil {
+		for i, in := range b.Instrs {
+			if in == ssa.Instruction(a) {
+				idx = i
+				break
+			}
+		}
+		fn := ""
+		if a.Parent() != nil {
+			fn = a.Parent().String()
+		}
+		return fmt.Sprintf("%s@%d|%s|%06d|%06d", a.Comment, a.Pos(), fn, b.Index, idx)
+	}
+	return fmt.Sprintf("%s@%d|?|%p", a.Comment, a.Pos(), a)
 }
